@@ -15,7 +15,8 @@ RULE = (
     "x+y=0, components spanning up to 30 decades relative to each other, overall length 1e-100..1e100, with and "
     "without units, int/float32 dtypes), axis letters and all six triples in any case, VectorBasis inputs with "
     "orthogonal non-unit vectors, and 'top'/'side' on rotating discs (known spin axis, counter-rotating pairs, "
-    "off-centre origins, dx/dy given or omitted).  A separate 'extreme' class (component ratios >= 1e150 or "
+    "off-centre origins, dx/dy given or omitted); a sweep over every decade of length 1e-323 .. 1e308 for three "
+    "directions.  A separate 'extreme' class (component ratios >= 1e150 or "
     "lengths whose squares over/underflow) is generated and reported under its own mechanism key.  "
     "Non-trivial = the normal is not axis aligned; distinct = distinct requests."
 )
@@ -45,6 +46,12 @@ def cases(ctx):
     for j, n in enumerate(fixed):
         for unit in ("", "cm", "pc"):
             out.append({"id": f"nfix-{j}-{unit or 'none'}", "kind": "normal", "n": list(n), "unit": unit})
+    # every decade of length from the smallest subnormal to the largest double (the bands in which squares become
+    # subnormal, underflow or overflow lie between the "regular" and the "extreme" random classes)
+    for e in range(-323, 309):
+        for j, d in enumerate(((0.3, -0.5, 0.8), (1.0, 0.0, 0.0), (0.6, 0.7, 0.0))):
+            out.append({"id": f"dec{e}-{j}", "kind": "normal", "n": [c * 10.0 ** e if e > -300 else c * 10.0 ** (e + 30) * 1e-30 for c in d],
+                        "unit": ["", "cm", "pc"][j]})
     nn = 5000 if ctx.tier == "quick" else 500000
     for i in range(nn):
         out.append({"id": f"n{i}", "kind": "normal", "i": i})
